@@ -38,12 +38,18 @@ const TAGS: [u8; N] = [0x11, 0xC5, 0x3D, 0x1D, 0x0D, 0x0B, 0x02, 0x83, 0xD3, 0x1
 /// variant index of each leaf kind on the wire (position in the declaration of both enums)
 const WIRE_IDX: [u8; N] = [0, 1, 2, 3, 4, 5, 6, 7, 8, 9, 10, 11, 12, 13, 14, 15, 16, 17, 19, 25];
 
+macro_rules! each_leaf {
+    ($f:ident) => {
+        $f(0); $f(1); $f(2); $f(3); $f(4); $f(5); $f(6); $f(7); $f(8); $f(9);
+        $f(10); $f(11); $f(12); $f(13); $f(14); $f(15); $f(16); $f(17); $f(18); $f(19);
+    };
+}
+
 #[kani::proof]
-#[kani::unwind(22)]
+#[kani::unwind(4)]
 //@ tier=quick class=core cap=600 bounds="all 20 leaf kinds: identical encoding, the From conversion and from_bytes::<Owned> give exactly the owned leaf, wire index = declaration position"
 fn c15_leaves() {
-    let mut i = 0;
-    while i < N {
+    fn one(i: usize) {
         let o = owned(i);
         same_encoding(&BORROWED[i], &o);
         assert!(O::from(&BORROWED[i]) == o, "conversion of a leaf kind yields a different kind");
@@ -52,56 +58,53 @@ fn c15_leaves() {
         assert!(bytes.len() == 1 && bytes[0] == WIRE_IDX[i], "leaf kind is not encoded as its declaration index");
         let back: O = postcard::from_bytes(bytes).unwrap();
         assert!(back == o, "decoding a leaf schema yields a different kind");
-        i += 1;
     }
-    kani::cover!(i == N, "all leaves visited");
+    each_leaf!(one);
+    kani::cover!(true, "all leaves visited");
 }
 
 #[kani::proof]
-#[kani::unwind(22)]
+#[kani::unwind(6)]
 //@ tier=quick class=core cap=900 bounds="all 20 leaf kinds x every path of 0..=3 UTF-8 bytes: compile-time (hook H2) and run-time keys both equal FNV-1a(path ++ documented tag)" hooks=H2
 fn c16_leaves() {
     let path = Path::any();
     let base = ref_fnv(REF_BASIS, path.bytes());
-    let mut i = 0;
-    while i < N {
+    let one = |i: usize| {
         let want = ref_fnv(base, &[TAGS[i]]).to_le_bytes();
         let kc = postcard_schema::key::hash::fnv1a64::verif_hash_static(path.as_str(), &BORROWED[i]);
         let ko = postcard_schema::key::Key::for_owned_schema_path(path.as_str(), &owned(i)).to_bytes();
         assert!(kc == want, "compile-time key of a leaf kind differs from the documented tag");
         assert!(ko == want, "run-time key of a leaf kind differs from the documented tag");
-        i += 1;
-    }
+    };
+    each_leaf!(one);
     kani::cover!(path.len == 3, "3-byte path reachable");
 }
 
 #[kani::proof]
-#[kani::unwind(22)]
+#[kani::unwind(4)]
 //@ tier=quick class=core cap=600 bounds="all 20 leaf kinds: to_pseudocode() returns a non-empty rendering"
 fn c19_pseudo_leaves() {
-    let mut i = 0;
-    while i < N {
+    fn one(i: usize) {
         let t = owned(i).to_pseudocode();
         assert!(t.len() > 0);
         core::mem::forget(t);
-        i += 1;
     }
-    kani::cover!(i == N, "all leaves visited");
+    each_leaf!(one);
+    kani::cover!(true, "all leaves visited");
 }
 
 #[kani::proof]
 #[kani::stub(std::collections::HashSet::insert, crate::shapes::insert_logger)]
 #[kani::stub(std::hash::RandomState::new, crate::shapes::random_state_any)]
-#[kani::unwind(22)]
+#[kani::unwind(4)]
 //@ tier=quick class=core cap=600 bounds="all 20 leaf kinds incl. Usize, Isize and Schema: discover_tys returns and logs exactly the leaf itself" stubs="HashSet::insert=logger;RandomState::new=arbitrary keys" family=leaves
 fn c19_discover_leaves() {
-    let mut i = 0;
-    while i < N {
+    fn one(i: usize) {
         let o = owned(i);
         let log = discover(&o);
         assert!(log.n == 1, "a leaf schema uses exactly one type: itself");
         assert!(log.kind[0] == WIRE_IDX[i], "collected type is not the leaf itself");
-        i += 1;
     }
-    kani::cover!(i == N, "all leaves visited");
+    each_leaf!(one);
+    kani::cover!(true, "all leaves visited");
 }
